@@ -169,9 +169,13 @@ def run_case(case):
     centers = np.array(base["scene"]["centers"], float)
     cxyz = pl.to_xyz(centers[:, 0], centers[:, 1])
     K = len(centers)
-    samples = [pl.Sample(c, cxyz) for c in base["scene"]["cats"]]
+    samples = pl.scene_samples(base["scene"])
+    if samples is None:
+        return Result.discard("derived-centres-leave-a-patch-empty")
     if min(s.margin.min() for s in samples) < 1e-12:  # squared-chord margin; rotations perturb it by ~1e-16
         return Result.discard("near-equidistant-object")
+    if base["scene"].get("derived"):
+        ck.cls("centres-derived-from-first-catalog")
     with Scratch() as tmp:
         try:
             (tmp / "base").mkdir()
@@ -207,6 +211,8 @@ def run_case(case):
                 ci = t["cat"] if base["mode"] == "cross" else 0
                 if base["mode"] == "auto":
                     return Result.discard("split-needs-cross")
+                if base["scene"].get("derived") and ci == 0:
+                    return Result.discard("split-of-the-catalog-that-defines-the-centres")
                 s = samples[ci]
                 part = np.zeros(s.n, dtype=bool)
                 for p in range(K):
@@ -244,6 +250,8 @@ def run_case(case):
             tcases, rel = transform_case(base, t)
             (tmp / "t").mkdir()
             cfg2, cfs2, _ = c01.measure(tcases[0], tmp / "t")
+        except pl.SceneUnusable:
+            return Result.discard("derived-centres-leave-a-patch-empty")
         except Exception as e:  # noqa
             ck.fail(f"transformed-measure:{kind}|{exc_sig(e)}", f"{type(e).__name__}: {e}")
             return ck.results()
